@@ -359,6 +359,27 @@ class Facts:
         self.insts_of = defaultdict(list)  # fn name -> [inst ids]
         for i in self.instances:
             self.insts_of[i['fn']].append(i['id'])
+        # calls through function pointers: the callee is one of the functions the program turns into a pointer somewhere
+        # (`reify` edges; the reifying function already reaches them) that takes as many arguments as the call passes
+        reified = sorted({c for _a, _bb, c, kind in wit['edges'] if kind == 'reify'})
+        self.indirect_sites = {}  # (fn name, bb) -> number of candidate callees (0: the pointer comes from outside)
+        for u in self.unresolved:
+            if len(u) != 3 or u[2] != 'indirect':
+                continue
+            a, bb = u[0], u[1]
+            caller = self.fns.get(self.instances[a]['fn'])
+            if caller is None or bb >= len(caller.blocks) or self.instances[a].get('crate') in ('core', 'alloc', 'std'):
+                continue  # (inside the standard library the reify edge of the pointer's creation covers reachability)
+            t = caller.blocks[bb]['term']
+            n = len(t.get('args') or [])
+            cands = [c for c in reified if self.fns.get(self.instances[c]['fn']) is None
+                     or self.fns[self.instances[c]['fn']].argc == n]
+            key = (caller.name, bb)
+            self.indirect_sites[key] = max(self.indirect_sites.get(key, 0), len(cands)) if cands else 0
+            for c in cands:
+                self.out_edges[a].append((bb, c, 'call'))
+                self.in_edges[c].append((a, bb, 'call'))
+                self.edge_at[(a, bb)].append((c, 'call'))
         # functions the rule tables do not know (split off by a refactoring) are made transparent
         if os.environ.get('VF_NO_INLINE') != '1':
             import inline
@@ -372,6 +393,7 @@ class Facts:
         if os.environ.get('VF_NO_THREAD') != '1':
             import inline
             inline.thread_bools(self)
+            inline.thread_enums(self)
             inline.canonical_field_names(self)
 
     def fatfs_fns(self):
